@@ -11,7 +11,7 @@
          permutation of the worker list (sorted) - workers are interchangeable in [step].
      (b) oracle: the statement of C20 evaluated on the log alone, without the model. *)
 From Coq Require Import List Arith Bool NArith.
-From Verif Require Import Gen.Facts Model.PoolLTS Corr.Common.
+From Verif Require Import Model.PoolLTS Model.PoolCfg Corr.Common.
 Import ListNotations.
 Local Open Scope nat_scope.
 
@@ -35,10 +35,6 @@ Inductive ev :=
 | EQuiesce (blk : list nat).      (* nothing moved for the settle time; blk = submitters still without an answer *)
 
 Record case := { c_n : nat; c_evs : list ev }.
-
-(* the configuration of the CURRENT code, read off the source by astfacts *)
-Definition current_cfg : cfg :=
-  {| stop_drains := f_pool_stop_drains; overflow_closes := f_pool_overflow_closes; stop_locks := f_pool_stop_locks |}.
 
 (* ---------- state equality and canonical form ---------- *)
 Definition bool_eqb (a b : bool) := Bool.eqb a b.
